@@ -130,7 +130,8 @@ pub fn run(root: &Path, job: &Job) -> SchedOut {
     };
     // set-up ops, sequentially, without the scheduler
     for (j, op) in job.ops.iter().enumerate() {
-        let _ = exec_op(&w, 9, seq_base(9, j), op);
+        let r = exec_op(&w, 9, seq_base(9, j), op);
+        out.setup_results.push(r);
     }
     let n = spec.threads.len();
     let sched = Arc::new(Sched { ctl: Mutex::new(Ctl { st: vec![St::Running; n], turn: None, steps: 0 }), cv: Condvar::new() });
